@@ -156,7 +156,9 @@ func runTar(ctx context.Context, opt tarOptions, args []string) error {
 		return err
 	}
 
-	index.Index.FeatureFlags |= desync.TarFeatureFlags
+	// Add the feature flags of the archive, but leave the digest flag as set by
+	// ChunkStream according to the digest the chunk IDs were calculated with
+	index.Index.FeatureFlags |= desync.TarFeatureFlags &^ desync.CaFormatSHA512256
 
 	// See if Tar encountered an error along the way
 	if tarErr != nil {
